@@ -22,9 +22,12 @@ for _s in SHAPES:
     BY_NUMEL.setdefault(numel(_s), []).append(_s)
 
 
+EXTENTS = [0, 1, 2, 3, 2, 3]        # the deterministic corpus widens this with special sizes (item width, 4, 5, 7)
+
+
 def rshape(rng, min_rank=0, max_rank=3, nonempty_dim=None):
     r = rng.randint(min_rank, max_rank)
-    s = [rng.choice([0, 1, 2, 3, 2, 3]) for _ in range(r)]
+    s = [rng.choice(EXTENTS) for _ in range(r)]
     if nonempty_dim is not None and r > nonempty_dim and s[nonempty_dim] == 0:
         s[nonempty_dim] = rng.choice([1, 2, 3])
     return s
@@ -109,7 +112,7 @@ def gen(rng, name):
         return c
     if name in ("view", "reshape", "view_as"):
         s = rshape(rng)
-        cands = BY_NUMEL[numel(s)]
+        cands = BY_NUMEL.get(numel(s)) or [tuple(s), (numel(s),), tuple(reversed(s)), (1,) + tuple(s)]
         c["s"], c["s2"] = s, list(rng.choice(cands))
         c["variant"] = rng.choice(["args", "tuple", "minus1"] if name != "view_as" else ["m"])
         if name == "reshape" and rng.random() < 0.3:
